@@ -75,6 +75,11 @@ func (st *stream) readFrameHeader() (ftype frameType, err error) {
 	}
 	size, err := st.readVarint()
 	if err != nil {
+		if err == io.EOF {
+			// The stream ended after the frame type: the frame is truncated.
+			// Only the end of the stream before a frame starts is a clean EOF.
+			return 0, errH3FrameError
+		}
 		return 0, err
 	}
 	st.lim = size
